@@ -55,6 +55,36 @@ def run_scc(case):
     return {"n": n, "m": m, "edges": [list(e) for e in case["edges"]], "events": events, "input": case}
 
 
+def run_scc_steps(case):
+    """Step level: the scc_visit / scc_finish / scc_pop hook events of one strongly_connected_components call"""
+    from solvor import _verif
+    from solvor.scc import strongly_connected_components
+    n, m, kind = case["n"], case["m"], case.get("labels", "int")
+    labs = [_label(kind, i) for i in range(m)]
+    ids = {lb: i for i, lb in enumerate(labs)}
+    adj = {lb: [] for lb in labs}
+    for u, v in case["edges"]:
+        adj[labs[u]].append(labs[v])
+    nodes = [labs[i] for i in case["order"]]
+    _verif.start()
+    try:
+        strongly_connected_components(iter(nodes), lambda s: list(adj[s]))
+    except Exception:  # noqa: BLE001
+        pass
+    events, dropped = _verif.stop()
+    steps = []
+    for e in events:
+        if e["e"] == "scc_visit":
+            steps.append({"k": "visit", "v": ids.get(e["v"], -1), "low": 0, "comp": []})
+        elif e["e"] == "scc_finish":
+            steps.append({"k": "finish", "v": ids.get(e["v"], -1), "low": int(e["low"]), "comp": []})
+        elif e["e"] == "scc_pop":
+            steps.append({"k": "pop", "v": -1, "low": 0, "comp": [ids.get(x, -1) for x in e["comp"]]})
+    if dropped or not steps:
+        return {"skipped": True}
+    return {"n": n, "edges": [list(e) for e in case["edges"]], "steps": steps, "input": case}
+
+
 def gen(rng, nmax=8):
     n = rng.randint(1, nmax)
     k = rng.choice([0, 0, 0, 1, 2])
